@@ -37,6 +37,7 @@ def evaluate(model, prop, spec, sched, opts, tag):
 
 
 def main():
+    kf_all = json.load(open(os.path.join(HERE, '..', 'known_findings.json')))['findings']
     mode, prop = sys.argv[1], sys.argv[2]
     model = M.Model()
     if mode == 'file':
@@ -60,7 +61,10 @@ def main():
         if prop not in r['properties']:
             continue
         try:
-            probs, obs, _ = evaluate(model, prop, r['spec'], r['sched'], r.get('opts', {}), '_' + r['id'])
+            probs, obs, ref = evaluate(model, prop, r['spec'], r['sched'], r.get('opts', {}), '_' + r['id'])
+            # a corpus program may also be an instance of a recorded (open) finding of this property: that is not the fixed defect coming back
+            if probs and O.known_instance([f for f in kf_all if prop in f['properties']], ref['flags'], probs):
+                probs = []
         except Exception as e:  # noqa: BLE001
             probs = ['harness error: %s: %s' % (type(e).__name__, e)]
         out['n_fixed'] += 1
